@@ -213,10 +213,10 @@ static int sx(OPN2_MIDIPlayer *dev, const uint8_t *m, size_t n) { ExactBuf eb(m,
 
 struct Drv
 {
-    Case &c; OPN2_MIDIPlayer *dev; Tap tap; Model M; bool wopn_route;
+    Case &c; OPN2_MIDIPlayer *dev; Tap tap; Model M; bool wopn_route; int initial_mode;
     std::vector<std::pair<int, int> > sounding;    // (channel, key) the harness holds down
     long resolved;
-    Drv(Case &c_): c(c_), dev(NULL), wopn_route(false), resolved(0) {}
+    Drv(Case &c_): c(c_), dev(NULL), wopn_route(false), initial_mode(0), resolved(0) {}
 
     bool lib_quiet()
     {
@@ -312,7 +312,8 @@ struct Drv
         {
             // the file format needs at least one bank on each side
             if(mel.empty()) mel.push_back(make_bank(r, false, (unsigned)r.pick((const int[]){0, 256, 3})));
-            if(perc.empty()) perc.push_back(make_bank(r, true, (unsigned)r.pick((const int[]){0, 5, 130})));
+            const bool no_percussion_banks = perc.empty() && r.chance(0.5);   // a melodic-only file is legal: header count 0
+            if(perc.empty() && !no_percussion_banks) perc.push_back(make_bank(r, true, (unsigned)r.pick((const int[]){0, 5, 130})));
             WOPNFile *f = WOPN_Init((uint16_t)mel.size(), (uint16_t)perc.size());
             f->version = 2; f->lfo_freq = 0; f->chip_type = 0;
             for(size_t i = 0; i < mel.size() + perc.size(); i++)
@@ -328,6 +329,16 @@ struct Drv
             int wr = WOPN_SaveBankToMem(f, img.data(), sz, 2, 0);
             WOPN_Free(f);
             if(wr != 0) return false;
+            if(no_percussion_banks)
+            {   // WOPN_Init(n, 0) holds one placeholder percussion bank and the writer stores it: cut it out again and declare 0
+                const size_t m = mel.size(), hdr = 18, meta = 34, insz = 69;
+                if(img.size() != hdr + (m + 1) * meta + (m + 1) * 128 * insz) return false;
+                Bytes cut(img.begin(), img.begin() + (long)(hdr + m * meta));
+                cut.insert(cut.end(), img.begin() + (long)(hdr + (m + 1) * meta), img.begin() + (long)(hdr + (m + 1) * meta + m * 128 * insz));
+                cut[15] = 0; cut[16] = 0;
+                img.swap(cut);
+                count("banks_without_percussion_side");
+            }
             ExactBuf eb(img); int rc = -1;
             API("opn2_openBankData", rc = opn2_openBankData(dev, eb.p, (long)eb.n));
             if(rc != 0) { c.violation("oracle:C12:generated-bank-rejected", vfmt("opn2_openBankData rejected a generated WOPN v2 image with %zu+%zu banks: %s", mel.size(), perc.size(), opn2_errorInfo(dev))); return false; }
@@ -409,6 +420,20 @@ struct Drv
             m.log(nm[which]);
         }
         return true;
+    }
+    // opn2_reset: the instance is as good as new (default mode, bank selects and programs 0, no drum parts); the banks stay
+    void ev_reset()
+    {
+        release_all();
+        API("opn2_reset", opn2_reset(dev));
+        M.mode = initial_mode;
+        for(int ch = 0; ch < 16; ch++)
+        {
+            ChanModel &m = M.ch[ch];
+            m.msb = m.lsb = m.prog = 0; m.D = 0; m.either_D = false; m.either_X = false; m.msb_via = "reset";
+            m.log("opn2_reset");
+        }
+        count("resets");
     }
     bool ev_drumpart(int ch, int vv)
     {
@@ -533,6 +558,7 @@ static void run_case(Case &c)
     API("opn2_setNumChips", rc = opn2_setNumChips(dev, r.range(1, 2)));
     if(!d.install(r)) { if(!g_w.violations_in_case) c.inconclusive = true; Tap::detach(dev); API("opn2_close", opn2_close(dev)); return; }
     d.M.mode = (int)P(dev)->m_synthMode;      // the statement does not name the power-on mode: adopt
+    d.initial_mode = d.M.mode;                // ... and expect it back after opn2_reset
     if(d.M.mode != MODE_GM && d.M.mode != MODE_GS && d.M.mode != MODE_XG) { c.inconclusive = true; Tap::detach(dev); API("opn2_close", opn2_close(dev)); return; }
 
     // value pools aimed at the layout
@@ -596,7 +622,8 @@ static void run_case(Case &c)
             bm[num] = b;
             count("banks_added_later");
         }
-        else { if(d.drain()) count("drains"); }
+        else if(op < 99) { if(d.drain()) count("drains"); }
+        else d.ev_reset();
     }
     d.release_all();
     c.sig = vfmt("%d|%zu|%zu", d.wopn_route, d.M.mel.size(), d.M.perc.size());
